@@ -69,15 +69,20 @@ DG = {
     "UNKOPT": hstrp(T_OPT, 1, bytes([0x0A, 0x01, 0x00]), rrs(0x03, IP_A)),
     "UNKSVC": hstrp(T_OPT, 1, OPTS, hdap(0x7F, [0, 1], b"\x00")),
     # services the HDAP layer names but does not implement (TP 0x12, DDS 0x14) and a zero service byte: not decodable, not answered
+    # every option type of the HSTRP option table: Realtime (length 0) first / alone, XPT site / index / channel type
+    "REG_A_RTP": hstrp(T_OPT, 11, bytes.fromhex("810083040001869f040102"), rrs(0x03, IP_A)),
+    "OFF_A_RTP_ONLY": hstrp(T_OPT, 12, bytes.fromhex("0100"), rrs(0x01, IP_A)),
+    "REG_B_XPT": hstrp(T_OPT, 13, bytes.fromhex("83040001869f850101860102070100"), rrs(0x03, IP_B)),
+    "CONNECT_RTP": hstrp(T_CONNECT | T_OPT, 0, bytes.fromhex("0100")),
     "SVC_TP": hstrp(T_OPT, 1, OPTS, hdap(0x12, [0, 1], b"\x00\x01")),
     "SVC_DDS": hstrp(0x00, 2, b"", hdap(0x14, [0, 1], b"\x00")),
     "SVC_ZERO": hstrp(T_OPT, 1, OPTS, b"\x00" + hdap(0x11, [0, 3], IP_A)[1:]),
 }
 ACK_BEARING = {"CONNECT_ACK", "CLOSE_ACK", "ACK", "ACK_OPT"}
-DATA = {"REG_A", "REG_B", "OFF_A", "OFF_B", "STATUS_A", "RCP_NOOPT", "RCP_OPT", "REG_A_SNFFFF"}
+DATA = {"REG_A", "REG_B", "OFF_A", "OFF_B", "STATUS_A", "RCP_NOOPT", "RCP_OPT", "REG_A_SNFFFF", "REG_A_RTP", "OFF_A_RTP_ONLY", "REG_B_XPT"}
 MALFORMED = {"TRUNC5", "TRUNC_PAYLOAD", "BADMAGIC", "UNKOPT", "UNKSVC", "SVC_TP", "SVC_DDS", "SVC_ZERO"}
-REG_IP = {"REG_A": IP_A, "REG_B": IP_B, "REG_A_SNFFFF": IP_A}
-OFF_IP = {"OFF_A": IP_A, "OFF_B": IP_B}
+REG_IP = {"REG_A": IP_A, "REG_B": IP_B, "REG_A_SNFFFF": IP_A, "REG_A_RTP": IP_A, "REG_B_XPT": IP_B}
+OFF_IP = {"OFF_A": IP_A, "OFF_B": IP_B, "OFF_A_RTP_ONLY": IP_A}
 
 
 def ip_str(b):
@@ -195,6 +200,7 @@ class RecDatagramTransport(DatagramTransport):
 
 
 PEER = ("192.0.2.10", 30001)
+PEER2 = ("192.0.2.77", 30001)
 # complete structural state of the real handler is part of every key; the transport only holds the last step's output
 IMPL_SKIP = frozenset({"transport", "_io", "_parent", "_root"})
 
@@ -228,10 +234,17 @@ class Single(explore.System):
             self.pending.append(("fresh_handler_registry_not_empty", {"registry": registry_view(self.impl)}))
             self.impl.registry.clear() if hasattr(self.impl.registry, "clear") else None
 
+    SECOND_PEER_KINDS = ["CONNECT", "CLOSE", "HEARTBEAT", "REG_A", "OFF_A", "CLOSE_ACK"]
+
     def events(self):
-        return list(self.KINDS)
+        return list(self.KINDS) + [k + "@2" for k in self.SECOND_PEER_KINDS]
 
     def step(self, kind):
+        peer = PEER
+        if kind.endswith("@2"):
+            kind = kind[:-2]
+            peer = PEER2  # the same message classes from another source address: link state and registry are the handler's, not the peer's
+        self.cur_peer = peer
         data = DG[kind]
         viol = list(self.pending)
         self.pending = []
@@ -241,11 +254,11 @@ class Single(explore.System):
         raised = None
         ret = None
         try:
-            ret = self.impl.datagram_received(data, PEER)
+            ret = self.impl.datagram_received(data, peer)
         except Exception as e:  # noqa: BLE001
             raised = e
         sent = list(self.tr.sent)
-        case = {"event": kind, "datagram": data.hex(), "connected_before": conn_before, "sent": [o.hex() for o, _ in sent]}
+        case = {"event": kind, "from": list(peer), "datagram": data.hex(), "connected_before": conn_before, "sent": [o.hex() for o, _ in sent]}
         if raised is not None:
             viol.append(("exception:" + exc_sig(raised), {**case, "exc": repr(raised)}))
             self.obs = (kind, "raised", type(raised).__name__)
@@ -253,7 +266,7 @@ class Single(explore.System):
         if not (isinstance(ret, tuple) and len(ret) == 2 and isinstance(ret[0], bool) and (ret[1] is None or isinstance(ret[1], HSTRP))):
             viol.append(("return_value_shape", {**case, "ret": repr(ret)}))
         for _, a in sent:
-            if a != PEER:
+            if a != peer:
                 viol.append(("answer_sent_to_other_address", case))
                 break
         outs = [o for o, _ in sent]
@@ -269,7 +282,7 @@ class Single(explore.System):
                 viol.append(("acknowledgement_answered", case))
             # connected flag after an ack-bearing connect/close is not defined by the statement: follow the implementation
             self.m_connected = self.impl.hstrp_connected
-        elif kind in ("CONNECT", "CONNECT_SN", "CLOSE"):
+        elif kind in ("CONNECT", "CONNECT_SN", "CLOSE", "CONNECT_RTP"):
             if len(outs) != 1 or not is_ack_for(outs[0], data):
                 viol.append(("connect_close_not_acknowledged_exactly_once", case))
             self.m_connected = kind != "CLOSE"
